@@ -4,6 +4,7 @@ import (
 	"encoding/json"
 	"fmt"
 	"math/big"
+	"strings"
 	"testing"
 
 	"verif/cs"
@@ -11,6 +12,8 @@ import (
 	"verif/gad"
 	"verif/rec"
 	"verif/ref"
+
+	"github.com/consensys/gnark/frontend"
 )
 
 // suite routes every generated case through its JSON form, so that a replay file re-executes
@@ -35,8 +38,11 @@ type replayEnvelope struct {
 	Args   json.RawMessage `json:"args"`
 }
 
+var curSuite *suite
+
 func newSuite(id string) *suite {
-	return &suite{id: id, r: rec.New(id), runners: map[string]caseFn{}}
+	curSuite = &suite{id: id, r: rec.New(id), runners: map[string]caseFn{}}
+	return curSuite
 }
 
 func (s *suite) on(name string, f caseFn) { s.runners[name] = f }
@@ -118,12 +124,92 @@ func alsoCompiled(name string, in []*big.Int, fn gad.Fn, want []*big.Int) *caseR
 	return nil
 }
 
+// constantEvery: every n-th gadget case (by input hash) is additionally run with some or all of
+// its operands given as circuit constants (what gl.NewVariable(c) / a fixed key / a circuit
+// description constant produces) instead of witness variables: on the engine, whose
+// Compiler().ConstantValue reports them as constants like gnark's builders do, and - for a
+// sub-sample - compiled with gnark's builders.  The mathematical result does not depend on how an
+// operand is supplied.
+var constantEvery = uint64(6)
+
+func constFn(fn gad.Fn, in []*big.Int, mask uint64) (gad.Fn, []*big.Int) {
+	var rest []*big.Int
+	isConst := make([]bool, len(in))
+	for i := range in {
+		isConst[i] = mask == 0 || (mask>>(uint(i)%60))&1 == 1
+		if !isConst[i] {
+			rest = append(rest, in[i])
+		}
+	}
+	return func(api frontend.API, vin []frontend.Variable) []frontend.Variable {
+		full := make([]frontend.Variable, len(in))
+		k := 0
+		for i := range in {
+			if isConst[i] {
+				full[i] = new(big.Int).Set(in[i])
+			} else {
+				full[i] = vin[k]
+				k++
+			}
+		}
+		return fn(api, full)
+	}, rest
+}
+
+func alsoConstant(name string, mode eng.Mode, in []*big.Int, fn gad.Fn, want []*big.Int) *caseResult {
+	if constantEvery == 0 || len(in) == 0 {
+		return nil
+	}
+	h := rec.Hash("const" + name + fmt.Sprint(in))
+	if h%constantEvery != 0 {
+		return nil
+	}
+	mask := (h / constantEvery) >> 3
+	if (h/constantEvery)%3 == 0 {
+		mask = 0 // all operands constant
+	}
+	cfn, rest := constFn(fn, in, mask)
+	if curSuite != nil {
+		curSuite.r.AddExtra("constant_operand_variants_engine", 1)
+	}
+	cname := fmt.Sprintf("%s[constant-operands mask=%#x]", name, mask)
+	cr := expectOutputsEng(cname, mode, rest, cfn, want)
+	if cr.Viol != "" {
+		cr.Viol = name + "/constant-operands/" + cr.Viol[strings.LastIndex(cr.Viol, "/")+1:]
+		cr.Desc = fmt.Sprintf("operands %v, constants where mask bit set (0 = all): %s", in, cr.Desc)
+		return &cr
+	}
+	if compiledEvery != 0 && (h/constantEvery/3)%compiledEvery == 0 {
+		kind, mech := cs.R1CS, cs.MechForcedBits
+		if (h>>40)%2 == 1 {
+			kind = cs.SCS
+		}
+		if (h>>41)%2 == 1 {
+			mech = cs.MechNative
+		}
+		if curSuite != nil {
+			curSuite.r.AddExtra("constant_operand_variants_compiled", 1)
+		}
+		sys, err := cs.Compile(kind, mech, len(rest), len(want), cfn)
+		if err != nil {
+			return &caseResult{Viol: name + "/constant-operands/compile-" + kind.String(), Desc: fmt.Sprintf("%s operands %v does not compile for %s/%s although the engine accepts it: %v", cname, in, kind, mech, truncate(err.Error(), 200))}
+		}
+		if err := sys.Solve(rest, want); err != nil {
+			return &caseResult{Viol: name + "/constant-operands/compiled-" + kind.String(), Desc: fmt.Sprintf("%s operands %v: compiled %s/%s system rejects the honest witness with the reference outputs as expected values: %v", cname, in, kind, mech, truncate(err.Error(), 200))}
+		}
+	}
+	return nil
+}
+
 // expectOutputs runs a gadget honestly and compares its outputs with the reference values.
 func expectOutputs(name string, mode eng.Mode, in []*big.Int, fn gad.Fn, want []*big.Int) caseResult {
 	cr := expectOutputsEng(name, mode, in, fn, want)
 	if cr.Viol == "" {
 		if c2 := alsoCompiled(name, in, fn, want); c2 != nil {
 			return *c2
+		}
+		if c3 := alsoConstant(name, mode, in, fn, want); c3 != nil {
+			return *c3
 		}
 	}
 	return cr
